@@ -59,8 +59,9 @@ impl PartialEq for Object {
         // because we allow duplicated keys in object, so we need to compare by `get`;
         // in both directions: with a duplicated key the two objects can have the same length
         // and different key sets, and equality must be symmetric
+        // (the reverse direction only needs the key to exist: its value was compared above)
         self.iter().all(|(k, _)| other.get(&k) == self.get(&k))
-            && other.iter().all(|(k, _)| self.get(&k) == other.get(&k))
+            && other.iter().all(|(k, _)| self.get(&k).is_some())
     }
 }
 
